@@ -250,14 +250,61 @@ pub fn run(rt: &tokio::runtime::Runtime, pool: &KeyPool, sc: &Value) -> Value {
             Ok(Err(e)) => classify(&e),
         };
         let log: Vec<Value> = mem.log.lock().unwrap().iter().map(|s| of_str(s)).collect();
-        let store = json!([
-            stored_summary(ds.path(), "root.json"),
-            stored_summary(ds.path(), "timestamp.json"),
-            stored_summary(ds.path(), "snapshot.json"),
-            stored_summary(ds.path(), "targets.json")
-        ]);
+        let store = ds_summary(ds.path());
         impl_results.push(json!([r, log, store]));
     }
     tough::verif_hooks::set_clock_offset_secs(0);
     json!([impl_results, [6, 0, sc["fixes"].clone(), model_cycles]])
+}
+
+/// op 15: one update cycle in this process on a given datastore directory (used under strace for
+/// crash / fault injection). {"docs", "cycle", "datastore"} -> [result, log, store] and the model cycle
+pub fn run_single(rt: &tokio::runtime::Runtime, pool: &KeyPool, sc: &Value) -> Value {
+    let base = chrono::Utc::now();
+    let docs = sc["docs"].as_object().expect("docs");
+    let mut b = Builder::new(pool, base, docs);
+    let ds = std::path::PathBuf::from(sc["datastore"].as_str().unwrap());
+    let cy = &sc["cycle"];
+    let mut files = HashMap::new();
+    if let Some(fm) = cy["files"].as_object() {
+        for (name, spec) in fm {
+            if let Some(id) = spec["doc"].as_str() {
+                let built = b.build(id);
+                files.insert(name.clone(), Entry::File { bytes: Arc::new(built.bytes.clone()), endless: false, fail: 0 });
+            }
+        }
+    }
+    let shipped = b.build(cy["shipped"].as_str().unwrap());
+    let mem = Mem { files: Arc::new(Mutex::new(files)), log: Arc::new(Mutex::new(Vec::new())), chunk: 0, prefix: "/metadata/".to_string() };
+    let enforce = cy["enforce"].as_bool().unwrap_or(true);
+    let shipped_bytes = shipped.bytes.clone();
+    // marker for the trace parser: everything after this syscall belongs to the cycle
+    let _ = std::fs::metadata("/verif-cycle-begin");
+    let loader = RepositoryLoader::new(
+        &shipped_bytes,
+        Url::parse("https://example.test/metadata/").unwrap(),
+        Url::parse("https://example.test/targets/").unwrap(),
+    )
+    .transport(mem.clone())
+    .datastore(&ds)
+    .expiration_enforcement(if enforce { ExpirationEnforcement::Safe } else { ExpirationEnforcement::Unsafe });
+    let res = rt.block_on(async { tokio::time::timeout(std::time::Duration::from_secs(20), loader.load()).await });
+    let _ = std::fs::metadata("/verif-cycle-end");
+    let r = match res {
+        Err(_) => json!([901, 0]),
+        Ok(Ok(repo)) => json!([0, repo.root().signed.version.get(), repo.timestamp().signed.version.get(),
+                               repo.snapshot().signed.version.get(), repo.targets().signed.version.get()]),
+        Ok(Err(e)) => classify(&e),
+    };
+    let log: Vec<Value> = mem.log.lock().unwrap().iter().map(|s| of_str(s)).collect();
+    json!([r, log, ds_summary(&ds)])
+}
+
+pub fn ds_summary(ds: &std::path::Path) -> Value {
+    json!([
+        stored_summary(ds, "root.json"),
+        stored_summary(ds, "timestamp.json"),
+        stored_summary(ds, "snapshot.json"),
+        stored_summary(ds, "targets.json")
+    ])
 }
